@@ -1001,6 +1001,13 @@ func (e *streamExec) readOnce(chunks []int, eofData bool, f ReadFault) {
 		// deliberate, narrow relaxation: reading helpers drop an error that comes with a satisfied
 		// request), but only a success that is exactly the buffered result, CID included
 		o.Probe("transient_read_error_survived")
+		// By the letter of the property a failure of the source at any point makes the call fail.
+		// The decoders that hash what they read (FromSealedReader) do latch such an error; the
+		// others lose it inside the dependency's io.ReadAtLeast (an error that arrives with a
+		// satisfied request is dropped) - recorded as a known finding, keyed on that attribute, so
+		// that a sealed reader that starts swallowing it is still reported.
+		ta := map[string]string{"api": e.p.API, "artefact": e.p.Art, "hashing_reader": fmt.Sprint(e.p.API == "sealed")}
+		o.Violate("C18", "transient-read-error-swallowed", fmt.Sprintf("%s %s returned success although the source reported an error (together with the bytes asked for, once, at offset %d of %d) and then carried on", e.p.Art, e.p.API, f.At, len(e.ref)), ta)
 		if strings.Join(recs, ";") != strings.Join(e.refRec, ";") {
 			o.Violate("C18", "stream-read-differs", fmt.Sprintf("%s %s: a read error that came with its bytes at offset %d was survived, with another result than the buffered decode", e.p.Art, e.p.API, f.At), attrs)
 		}
